@@ -350,6 +350,48 @@ theorem C09_pushpull_rule (isSelf : Bool) (state : Nat) :
     (pushPullExcl isSelf state = false ↔ isSelf = false ∧ state = 0) := by
   unfold pushPullExcl; cases isSelf <;> simp
 
+/-- the member list as `gossip()` sees it: every record marked with the verdict of gossip's exclusion rule -/
+def withGossipRule (self : String) (nodes : Array SNode) : Array SNode :=
+  nodes.map fun n => { n with excl := gossipExcl (n.name == self) n.state n.old }
+
+/-- **C08 (Leave waits only when somebody can hear it, and then somebody is told).** Whenever `anyAlive()` holds -
+which is exactly when `Leave` waits for its departure to be gossiped - the next gossip round of a node with
+fewer than `3 * GossipNodes` records addresses at least one member, and every member it addresses is an alive
+or suspect peer or a recently dead one: never the node itself, never a member that left. (`hwf`: records carry
+one of the four state codes - `mergeState` and the message handlers store nothing else.) -/
+theorem C08_leave_departure_reaches_someone (self : String) (k : Nat) (nodes : Array SNode)
+    (shuffled : List SNode) (offs : List Nat)
+    (hperm : shuffled.Perm (withGossipRule self nodes).toList)
+    (hwf : ∀ n ∈ nodes, n.state ≤ 3)
+    (hany : anyAlive self nodes.toList = true) (hk : 0 < k) (hsmall : nodes.size < k * 3) :
+    kRandom k (withGossipRule self nodes) shuffled offs ≠ [] ∧
+    ∀ s ∈ kRandom k (withGossipRule self nodes) shuffled offs,
+      s.name ≠ self ∧ (s.state = 0 ∨ s.state = 1 ∨ (s.state = 2 ∧ s.old = false)) := by
+  obtain ⟨n, hn, hp⟩ := List.any_eq_true.mp hany
+  simp only [Bool.and_eq_true, Bool.not_eq_true', bne_iff_ne, ne_eq] at hp
+  obtain ⟨hgone, hname⟩ := hp
+  have hle := hwf n (by simpa using hn)
+  have hst : n.state = 0 ∨ n.state = 1 := by
+    unfold SNode.gone at hgone
+    simp only [Bool.or_eq_false_iff, beq_eq_false_iff_ne, ne_eq] at hgone
+    omega
+  -- the marked copy of that peer is admissible
+  let n' : SNode := { n with excl := gossipExcl (n.name == self) n.state n.old }
+  have hn' : n' ∈ withGossipRule self nodes := by
+    unfold withGossipRule
+    exact Array.mem_map.mpr ⟨n, by simpa using hn, rfl⟩
+  have hadm : n'.excl = false := by
+    show gossipExcl (n.name == self) n.state n.old = false
+    rw [C08_gossip_rule]
+    exact ⟨by simpa using hname, by rcases hst with h | h <;> simp [h]⟩
+  have hsz : (withGossipRule self nodes).size < k * 3 := by simpa [withGossipRule] using hsmall
+  refine ⟨C08_kRandom_nonempty k _ shuffled offs hperm hsz hk n' hn' hadm, ?_⟩
+  intro s hs
+  obtain ⟨hmem, hex⟩ := (C19_kRandom_sound k _ shuffled offs hperm).2 s hs
+  obtain ⟨m, _, rfl⟩ := Array.mem_map.mp (by simpa [withGossipRule] using hmem)
+  have := (C08_gossip_rule (m.name == self) m.state m.old).mp hex
+  exact ⟨by simpa using this.1, this.2⟩
+
 example : kRandom 2 #[⟨"a", 0, false, true⟩, ⟨"b", 0, false, false⟩, ⟨"c", 1, false, false⟩]
     [⟨"c", 1, false, false⟩, ⟨"a", 0, false, true⟩, ⟨"b", 0, false, false⟩] [] =
     [⟨"c", 1, false, false⟩, ⟨"b", 0, false, false⟩] := by decide
